@@ -23,7 +23,7 @@ theorem answer_on_chain (prog : Bytes) (short : FadesShort prog) (hist : List (N
   have ip := reachable_inv prog short hist _ _ (inv_fresh prog) hp
   obtain ⟨ir, cr⟩ := seek_inv prog short p r t f ip hr
   have h0 : t ≠ 0 := fun h0 => hni 0 (fun i h1 h2 => by omega) (by rw [chain0_next, h0])
-  rcases ir with ⟨hc, _, _⟩ | ⟨k, hk, hl, hs, hn, hc1, hc2, hcol⟩ | ⟨m, hm, hl, he, hd, hc⟩
+  rcases ir with ⟨hc, _, _⟩ | ⟨k, hk, hl, hs, hn, hc1, hc2, _, hcol⟩ | ⟨m, hm, hl, he, hd, hc⟩
   · omega
   · left
     rw [cr] at hc1 hc2 hcol
